@@ -194,7 +194,10 @@ Definition prop_logs (grp : N) (names : list N) (cfgs : list (list (N * spec))) 
                (vis_calls grp (fst (spec_log 0 n None (map (fun l => filt w (cfg_of l n)) cfgs)))))
       (if grp =? 0 then [0] else [0; 1]))
     names
-  && forallb (fun e => existsb (N.eqb (entry_name e)) names) log.
+  (* no stray events: every logged callback belongs to a name of the name space and to one of
+     the consumers under observation *)
+  && forallb (fun e => existsb (N.eqb (entry_name e)) names) log
+  && forallb (fun e => existsb (N.eqb (l_who e)) (if grp =? 0 then [0] else [0; 1])) log.
 
 Definition prop_obs (c : reg_case) (crash : bool) (log : list entry) (obs : list step_obs) : bool :=
   negb crash
